@@ -47,12 +47,28 @@ func genCrash(g *gen, n int, tier string, w *bufio.Writer) {
 		fmt.Fprintf(w, "# case %d\n", c)
 		fmt.Fprintf(w, "cfg sync=%d mem=%d\n", sync, mem)
 		steps := 3 + g.intn(9)
+		huge := 0 // one entry larger than the whole 64 KB log buffer: the FIRST record written into a file can be torn
+		if big && g.chance(1, 2) {
+			huge = 1
+		}
 		for s := 0; s < steps; s++ {
+			inTx := false
 			val := func() []byte {
+				if big && !inTx && g.chance(1, 6) { // the rest after the first fragment is an exact multiple of the record payload limit
+					return g.bytesN(g.pick(1, 2)*32768 - 4 + g.pick(-1, 0, 0, 1))
+				}
 				if big && g.chance(2, 3) {
 					return g.bytesN(9000 + g.intn(14000))
 				}
 				return g.bytesN(g.pick(0, 1, 5, 30, 120))
+			}
+			if huge == 1 && (s == 0 || g.chance(1, 3)) {
+				huge = 2
+				if s > 0 {
+					fmt.Fprintln(w, g.pickS("w reopen", "w flush"))
+				}
+				fmt.Fprintln(w, join("w", "put", hx(g.engKey()), hx(g.bytesN(66000+g.intn(30000)))))
+				continue
 			}
 			switch x := g.intn(100); {
 			case x < 45:
@@ -61,6 +77,7 @@ func genCrash(g *gen, n int, tier string, w *bufio.Writer) {
 				fmt.Fprintln(w, join("w", "del", hx(g.engKey())))
 			case x < 82:
 				m := 1 + g.intn(4)
+				inTx = true // a transaction entry must fit one log record
 				parts := []string{"w", "tx", strconv.Itoa(m)}
 				for i := 0; i < m; i++ {
 					if g.chance(1, 4) {
